@@ -30,6 +30,13 @@ Arr(s) == [k |-> "arr", v |-> s]
 MapV(pairs) == [k |-> "map", v |-> pairs]
 RangeV(a, b) == [k |-> "range", a |-> a, b |-> b]
 Unspec == [k |-> "unspec"]
+\* An array whose nil elements may stand anywhere among the others (the
+\* result of sorting an array that contains nil: the comparable elements
+\* must ascend, the place of the nils is open).  Only operations that do not
+\* depend on where the nils are (compact, join, size, printing, contains)
+\* are decided on it.
+ArrNF(s) == [k |-> "arr", v |-> s, nf |-> TRUE]
+NilFree(v) == v.k = "arr" /\ "nf" \in DOMAIN v
 
 IsUnspec(v) == v.k = "unspec"
 
@@ -54,19 +61,25 @@ FloorDiv(n, d) == n \div d                      \* TLA+ \div floors for d > 0
 CeilDiv(n, d) == 0 - ((0 - n) \div d)
 TruncDiv(n, d) == IF n >= 0 THEN n \div d ELSE 0 - ((0 - n) \div d)
 
-IsPow2(d) == d \in {1, 2, 4, 8, 16, 32, 64, 128, 256, 512, 1024}
-Log2(d) == CHOOSE e \in 0..10 : 2^e = d
-\* Is the %v spelling of the float n/d modelled?  (plain decimal notation:
-\* dyadic, magnitude below 10^6, at most 10 fractional binary digits.)
-FltPrintable(n, d) == IsPow2(d) /\ AbsI(n) \div d < 1000000 /\ (d = 1 \/ AbsI(n) \div d < 100000)
+\* Is the %v spelling of the float n/d modelled?  Plain decimal notation:
+\* the denominator divides a power of ten (so the expansion is finite and is
+\* the shortest spelling that reads back as the same float), the magnitude
+\* is below 10^6 (Go switches to exponent notation there) and the digits
+\* fit TLC's 32-bit integers.
+DecPlaces(d) == IF \E e \in 0..6 : (10^e) % d = 0 THEN CHOOSE e \in 0..6 : (10^e) % d = 0 /\ \A f \in 0..(e - 1) : (10^f) % d # 0
+                ELSE 0 - 1
+FltPrintable(n, d) ==
+  /\ DecPlaces(d) >= 0
+  /\ AbsI(n) \div d < 1000000
+  /\ AbsI(n) <= 2147483647 \div ((10^DecPlaces(d)) \div d)
 RECURSIVE PadZeros(_, _)
 PadZeros(s, w) == IF Len(s) >= w THEN s ELSE PadZeros(<<48>> \o s, w)
 FltText(n, d) ==
   IF d = 1 THEN IntText(n)
-  ELSE LET e == Log2(d)
-           a == AbsI(n)
-           ip == a \div d
-           fr == (a % d) * (5^e)
+  ELSE LET e == DecPlaces(d)
+           a == AbsI(n) * ((10^e) \div d)
+           ip == a \div (10^e)
+           fr == a % (10^e)
        IN  (IF n < 0 THEN <<45>> ELSE <<>>) \o NatDigits(ip) \o <<46>> \o PadZeros(NatDigits(fr), e)
 
 \* ------------------------------------------------------------- truthiness
@@ -111,7 +124,8 @@ Eq3(a, b) ==
   ELSE CASE a.k = "nil" -> "t"
          [] a.k = "bool" -> B3(a.v = b.v)
          [] a.k = "str" -> B3(a.v = b.v)
-         [] a.k = "arr" -> IF Len(a.v) # Len(b.v) THEN "f"
+         [] a.k = "arr" -> IF NilFree(a) \/ NilFree(b) THEN "u"
+                           ELSE IF Len(a.v) # Len(b.v) THEN "f"
                            ELSE AllT3([i \in 1..Len(a.v) |-> Eq3(a.v[i], b.v[i])])
          [] a.k = "map" -> IF Same(a, b) THEN "t" ELSE "u"
          [] a.k = "range" -> IF Same(a, b) THEN "t" ELSE "u"
@@ -145,7 +159,8 @@ B_size == <<115, 105, 122, 101>>
 
 \* a.name
 Prop(v, name) ==
-  CASE v.k = "arr" ->
+  CASE v.k = "arr" /\ NilFree(v) /\ name # B_size -> Unspec
+    [] v.k = "arr" ->
          (CASE name = B_first -> IF v.v = <<>> THEN Nil ELSE v.v[1]
             [] name = B_last -> IF v.v = <<>> THEN Nil ELSE v.v[Len(v.v)]
             [] name = B_size -> IntV(Len(v.v))
@@ -159,7 +174,8 @@ Prop(v, name) ==
 \* a[i]
 Index(v, i) ==
   IF IsUnspec(i) THEN Unspec
-  ELSE CASE v.k = "arr" ->
+  ELSE CASE v.k = "arr" /\ NilFree(v) -> Unspec
+    [] v.k = "arr" ->
          (IF IsNum(i) THEN
             IF ~IsWhole(i) THEN Unspec
             ELSE LET n == NumN(i)
